@@ -3506,3 +3506,73 @@ async fn rejected_first_block_leaves_the_node_without_a_block() {
             other => format!("{:?}", other),
         }, peer_block2_hash.to_hex())); }
 }
+
+/// C15: a fresh node that receives the peer's blocks out of order (2,1,3,4,5) ends on the peer's chain with the peer's ledger
+#[tokio::test]
+#[serial_test::serial]
+async fn fresh_node_handed_block_two_before_block_one_follows_the_chain() {
+    #[allow(unused_imports)] use crate::core::util::test::test_manager::test::TestManager;
+    #[allow(unused_imports)] use crate::core::consensus::block::Block;
+    #[allow(unused_imports)] use crate::core::consensus::block::BlockType;
+    #[allow(unused_imports)] use crate::core::consensus::blockchain::AddBlockResult;
+    #[allow(unused_imports)] use crate::core::defs::SaitoHash;
+    #[allow(unused_imports)] use crate::core::util::crypto::hash;
+    // the producer builds blocks 1..=5; every block after the first carries a payment out of
+    // the producer's wallet, so the later blocks spend what the earlier ones (block 1 first of
+    // all: the issuance) created
+    let mut t = TestManager::default();
+    t.initialize(100, 200_000_000_000_000).await;
+    let mut blocks: Vec<Block> = vec![t.get_latest_block().await];
+    for i in 2..=5u64 {
+        let parent = t.get_latest_block().await;
+        let mut block = t
+            .create_block(parent.hash, parent.timestamp + 120000, 1, 1000, 0, true)
+            .await;
+        block.generate().unwrap();
+        let result = t.add_block(block.clone()).await;
+        assert!(
+            matches!(result, AddBlockResult::BlockAddedSuccessfully(_, true, _)),
+            "setup: the producer extends its own chain with block {}",
+            i
+        );
+        blocks.push(block);
+    }
+    assert_eq!(t.get_latest_block().await.id, 5, "setup: producer is at block 5");
+
+    // what travels is the serialised block
+    let wire: Vec<Vec<u8>> = blocks
+        .iter()
+        .map(|block| block.serialize_for_net(crate::core::consensus::block::BlockType::Full))
+        .collect();
+    let hashes: Vec<SaitoHash> = blocks.iter().map(|block| block.hash).collect();
+
+    // the fresh node: no block, no peers configured, nothing on its mind
+    let mut t2 = TestManager::default();
+    t2.disable_staking().await;
+    assert!(
+        t2.blockchain_lock.read().await.blocks.is_empty(),
+        "setup: the receiving node holds no block"
+    );
+
+    // arrival order: 2, 1, 3, 4, 5
+    for index in [1usize, 0, 2, 3, 4] {
+        let block = Block::deserialize_from_net(&wire[index]).unwrap();
+        let _ = t2.add_block(block).await;
+    }
+
+    let blockchain = t2.blockchain_lock.read().await;
+    for hash in hashes.iter() {
+        assert!(
+            blockchain.blocks.contains_key(hash),
+            "setup: the node kept every block it was handed"
+        );
+    }
+    assert_eq!(
+        blockchain.get_latest_block_id(),
+        5,
+        "setup: the node's tip is at height 5"
+    );
+    if !((blockchain
+            .blockring
+            .get_longest_chain_block_hash_at_block_id(1)) == (Some(hashes[0]))) { witness(format!("a fresh node that was handed block 2 before block 1 never takes block 1 (the issuance) into its longest chain and ledger any more, so it cannot follow the honest chain: broken by 0ad1743 (the out-of-order branch of add_block was removed instead of being made to unwind)")); }
+}
